@@ -942,6 +942,11 @@ pub fn materialise(w: &World, r: &Request, rng: &mut ChaCha20Rng) -> Materialise
     let if_ = fill(r.i_spend.len().min(1));
     let (o_anchor, o_notes) = orchard_tree(w, &r.o_spend, &of);
     let (i_anchor, i_notes) = orchard_tree(w, &r.i_spend, &if_);
+    // boundary value: a bundle without spends may name any anchor, in particular the all-zero one
+    // (the value the older PCZT encoding writes in place of an absent anchor)
+    let zero = |a: orchard::Anchor| Option::from(orchard::Anchor::from_bytes([0u8; 32])).unwrap_or(a);
+    let o_anchor = if r.o_spend.is_empty() && rng.gen_range(0..4) == 0 { zero(o_anchor) } else { o_anchor };
+    let i_anchor = if r.i_spend.is_empty() && rng.gen_range(0..4) == 0 { zero(i_anchor) } else { i_anchor };
     Materialised {
         coins,
         outpoints,
